@@ -5,6 +5,24 @@ import json, os
 ROOT = os.path.dirname(os.path.dirname(os.path.abspath(__file__)))
 
 CLAIMED = {
+ "C01": dict(
+   category="translation_validation",
+   technique="property-based differential testing (rapid): typed query/graph generator; the emitted SQL text is executed by a PostgreSQL model (pgsim) and compared with an independent openCypher 9 reference evaluator (refcypher) at the exact determinacy the query fixes; stored-case replay of every finding",
+   text="Differential execution: each generated read query (node/relationship/variable-length patterns in all directions, multi-pattern and multi-MATCH, OPTIONAL MATCH, WITH pipelines, WHERE boolean/comparison/string/null/kind/IN/pattern predicates, quantifiers, UNWIND, aggregation, DISTINCT, ORDER BY/SKIP/LIMIT, path and entity functions, parameters) is parsed and translated by DAWGS; the emitted SQL with the emitted parameters is executed on pgsim over the DAWGS schema and the rows are compared with refcypher's at the determinacy openCypher fixes (sequence / bag / bag modulo list order / row count - obtained from an exact observation channel of the reference under four tie-break orders) over random small graphs with self loops, parallel edges, multi-kind and kind-less nodes, missing and mixed-type properties. Translation errors, SQL run-time errors and reference run-time errors are 'rejected', which the property allows.",
+   note="Bounded by the generator fragment (no shortest-path execution, no writes, strings from [a-z0-9]*, graphs <= 6 nodes / 8 edges). PostgreSQL and openCypher are modelled, not run: pgsim and refcypher are calibrated against the repository's ~450 result-asserting integration cases (their package tests) and pgsim against the 373 golden statements. 20 open findings are excluded by named syntactic predicates and counted (about 10% of cases); three documented DAWGS dialect choices are kept out of the generator (leading OPTIONAL MATCH = MATCH, property + property = concatenation, stricter typing) and one is modelled in the reference (negated string predicate on a missing property).",
+   design="§4 C01, §7.5"),
+ "C02": dict(
+   category="translation_validation",
+   technique="property-based metamorphic/differential testing (rapid, generator biased to the shapes the lowerings look for): optimised vs unoptimised translation (hook H1) executed on pgsim, optimiser rewrites checked on the reference evaluator, per-lowering ablation in the thorough tier",
+   text="The optimised translation and the translation with all optimisation disabled (hook H1 translate.TranslateWithPlan with a plan that carries only a copy of the query) of the same generated query are both executed on pgsim over the same graph and must return the same result as far as openCypher determines it, and agree with the reference where the unoptimised one does; optimize.Optimize's rewritten Cypher is evaluated by refcypher and must mean the same as the original; a translation rejected on one side only is a violation; thorough: a plan with exactly one lowering class kept vs none. 12 of 14 lowering classes and 3 of 3 rewrite rules are exercised; the two shortest-path lowerings are flagged as never exercised (shortest paths are not executed).",
+   note="8 open findings excluded by predicate. Cases where the unoptimised SQL already disagrees with the reference (open C01 defects) compare as bags or are skipped under SKIP/LIMIT windows. Type errors that pgsim detects only at evaluation time are skipped and attributed to C03. H1 mirrors translate.Translate step for step.",
+   design="§4 C02, §7.5"),
+ "C03": dict(
+   category="exploration",
+   technique="property-based testing (rapid): generated reads/updates/shortest paths, corpus (enumerated) and its mutations, grammar derivations, builder programs; oracle = PostgreSQL-conformant parser + name-resolution binder (pgsim.Parse / Bind / BindHarness) on the emitted text",
+   text="Every statement DAWGS emits for typed generated reads (default and lowering-biased), a wider generator with updating clauses, shortest-path forms and deeper nesting, every shipped corpus query and token mutations of it, grammar derivations that translate, and query-builder programs is parsed and bound in the PostgreSQL model: every table, CTE, alias, column, composite field and @parameter must resolve to exactly one definition in scope (CTE visibility incl. recursion, FROM-item order, LATERAL, JOIN ON, correlated sub-queries, output aliases in ORDER BY/GROUP BY), CTE column lists must match their bodies, grouping must be legal, every SQL text handed to the shortest-path harness functions must parse and bind against the harness's temporary tables, and a data-modifying statement may appear only if the Cypher has an updating clause (independent reflection walk).",
+   note="The binder is a model of PostgreSQL's parse analysis (calibrated: the 373 golden statements and 457 translated integration queries bind cleanly); operator/function type errors are counted, not judged; 34 open findings are excluded by syntactic predicates, some of them wide (about 55% of the 'wide' sub-check is excluded); plpgsql harness functions are bound, not executed.",
+   design="§4 C03, §7.5"),
  "C04": dict(
    category="exploration",
    technique="property-based testing (rapid) with a metamorphic oracle on PostgreSQL token sequences (scan.l-conformant lexer), value read-back, recursion into SQL passed as text, real pgx named-argument rewriter; coverage-guided native fuzz target FuzzC04 (60 s) in the thorough tier",
